@@ -6,7 +6,8 @@ From Verif Require Import BatchRPC.Model BatchRPC.Proofs BatchRPC.Proofs2.
 (* ---------------------------------------------------------------- how one step can change one entry *)
 Inductive etrans : entry -> entry -> Prop :=
 | T_submit h : etrans entry0 (mkEntry h Queued [] false None)
-| T_st e st : etrans e (set_st e st)
+| T_st e st : (st = Retired \/ (exists i, st = Built i /\ e_st e = Queued /\ e_canceled e = false)
+               \/ (exists i, st = Stored i /\ e_st e = Built i)) -> etrans e (set_st e st)
 | T_err e k : etrans e (complete e (Err k))
 | T_resp e p : e_canceled e = false -> etrans e (complete e (Resp p))
 | T_abort e k : e_ret e = None -> etrans e (mkEntry (e_host e) (e_st e) (e_comp e) true (Some (Err k)))
@@ -24,16 +25,17 @@ Proof.
   intros s l s' I H c0. destruct l; simpl in H.
   - destruct (e_st (ent s c)) eqn:ES; try discriminate. inv_some. simpl.
     apply upd_etrans. destruct (I_good s I c) as (_ & _ & _ & _ & G5). rewrite (G5 ES). constructor.
-  - destruct (e_st (ent s c)); try discriminate.
-    destruct (negb (e_canceled (ent s c)) && (next_id s <? i)); try discriminate. inv_some. simpl.
-    apply upd_etrans. constructor.
+  - destruct (e_st (ent s c)) eqn:ES; try discriminate.
+    destruct (negb (e_canceled (ent s c)) && (next_id s <? i)) eqn:EG; try discriminate. inv_some. simpl.
+    apply andb_prop in EG. destruct EG as [EC _]. apply negb_true_iff in EC.
+    apply upd_etrans. apply T_st. right; left. exists i. auto.
   - destruct (e_st (ent s c)); try discriminate. destruct (e_canceled (ent s c)); try discriminate. inv_some. simpl.
-    apply upd_etrans. unfold retire. constructor.
+    apply upd_etrans. unfold retire. apply T_st. now left.
   - destruct (e_st (ent s c)); try discriminate. inv_some. simpl. apply upd_etrans. constructor.
   - destruct (e_st (ent s c)); try discriminate.
     + destruct (e_canceled (ent s c)); try discriminate. inv_some. simpl. apply upd_etrans. constructor.
     + inv_some. simpl. apply upd_etrans. constructor.
-  - destruct (e_st (ent s c)); try discriminate. inv_some. simpl. apply upd_etrans. constructor.
+  - destruct (e_st (ent s c)) eqn:ES; try discriminate. inv_some. simpl. apply upd_etrans. apply T_st. right; right. exists i; auto.
   - destruct (e_st (ent s c)); try discriminate.
     destruct (loaded_on (loops s (e_host (ent s c))) i); try discriminate. inv_some. simpl. apply upd_etrans. constructor.
   - destruct (loops s h); try discriminate. destruct (lookup i (tab s)).
@@ -41,7 +43,7 @@ Proof.
       inv_some. now left.
     + inv_some. now left.
   - destruct (loops s h); try discriminate. inv_some. simpl. apply upd_etrans.
-    destruct (e_canceled (ent s c)) eqn:EC; [unfold retire; constructor | now constructor].
+    destruct (e_canceled (ent s c)) eqn:EC; [unfold retire; apply T_st; now left | now constructor].
   - destruct (loops s h); try discriminate. destruct (closed s); [inv_some; now left|].
     destruct (fail_pending h (tab s) (ent s)) as [t' f'] eqn:EF.
     assert (Es : ent s' = f') by (destruct (Nat.eqb ep (epoch s)); inv_some; reflexivity).
@@ -61,6 +63,11 @@ Proof.
     destruct (e_comp (ent s c)) eqn:EC; try discriminate. inv_some. simpl. rewrite <- EC. apply upd_etrans. now constructor.
   - inv_some. now left.
   - inv_some. now left.
+  - destruct (loops s h); try discriminate; inv_some; now left.
+  - destruct (loops s h); try discriminate. destruct (closed s); try discriminate. inv_some. now left.
+  - destruct (e_st (ent s c)); try discriminate.
+    destruct (closed s && negb (loaded_on (loops s (e_host (ent s c))) i)); try discriminate. inv_some. simpl. apply upd_etrans. constructor.
+  - destruct (e_st (ent s c)); try discriminate. destruct (closed s); try discriminate. inv_some. simpl. apply upd_etrans. constructor.
 Qed.
 
 Lemma etrans_ret_stable : forall e e' r, etrans e e' -> e_ret e = Some r -> e_ret e' = Some r.
@@ -76,6 +83,17 @@ Qed.
 Lemma etrans_comp_prefix : forall e e', etrans e e' -> exists l, e_comp e' = e_comp e ++ l.
 Proof.
   intros e e' T. destruct T; simpl; try (exists []; now rewrite app_nil_r); eauto.
+Qed.
+
+Lemma etrans_canceled_stays : forall e e', etrans e e' -> e_canceled e = true -> e_canceled e' = true.
+Proof. intros e e' T H. destruct T; simpl in *; auto. Qed.
+
+Lemma etrans_skipped_st : forall e e', etrans e e' -> e_canceled e = true ->
+  (e_st e = Queued \/ e_st e = Retired) -> (e_st e' = Queued \/ e_st e' = Retired).
+Proof.
+  intros e e' T HC HS. destruct T; simpl in *; auto; try discriminate.
+  destruct H as [E|[[i (E & _ & E2)]|[i (E & E2)]]]; subst; auto; [congruence|].
+  destruct HS as [E|E]; rewrite E in E2; discriminate.
 Qed.
 
 (* ---------------------------------------------------------------- run-level statements *)
